@@ -1,5 +1,6 @@
 SPECIFICATION Spec
 CONSTANT MaxLen = 3
+CONSTANT CoreOnly = TRUE
 INVARIANT MInAllowed
 INVARIANT OffMeansUntouched
 INVARIANT NonEmpty
